@@ -1,5 +1,6 @@
 import SciVerif.Drive.Util
 import SciVerif.Model.C19Read
+import SciVerif.Model.C19Dip
 open Lean SciVerif.Drive
 
 namespace SciVerif.C19.Drive
@@ -94,6 +95,14 @@ def shapedJson : Shaped → Json
   | .bare v => Json.mkObj [("bare", valJson v)]
   | .withUnit v u => Json.mkObj [("value", valJson v), ("unit", jS u)]
 
+def kindStr : Kind → String
+  | .bool => "bool" | .int => "int" | .uint => "uint" | .float => "float" | .str => "str"
+
+/-- a parameter as the DIP reader model returns it -/
+def paramJson (p : Param) : Json :=
+  Json.mkObj [("name", jS p.name), ("kind", Json.str (kindStr p.kind)), ("bits", jnat p.bits),
+    ("value", valJson p.value), ("unit", jopt jS p.unit)]
+
 /-- macro-defined booleans read as 1 / 0 -/
 def macroFix (define : List Str) (data : List Param) : List Param := data.map (macroParam define)
 
@@ -129,7 +138,8 @@ def case (j : Json) : Except String Json := do
     pure (wrap text ((text.bind readBash).map (jarr bsymJson)) (some (jarr bsymJson (expectedBash ex ren data))))
   | "dip" =>
     let text := exportDip data
-    pure (wrap text none none)
+    -- the reader model covers boolean / numeric nodes; with a string node present it answers `none`
+    pure (wrap text ((text.bind readDip).map (jarr paramJson)) (some (jarr paramJson (expectedDip data))))
   | "json" | "yaml" | "toml" =>
     let units := getBoolD o "units" true
     let sh := exportData units data
